@@ -688,6 +688,14 @@ func (m *Mirror) handleFuturePrevoteProofs(
 	// including public keys.
 	pubKeys := vlReq.VRV.ValidatorSet.PubKeys
 
+	if len(pubKeys) > 0 && p.PubKeyHash != string(vlReq.VRV.ValidatorSet.PubKeyHash) {
+		// The kernel knows the validator set for this height,
+		// and the message claims a different one.
+		// The votes would be verified against the known set
+		// but stored under the claimed hash.
+		return tmconsensus.HandleVoteProofsBadPubKeyHash
+	}
+
 	if len(pubKeys) == 0 {
 		// The mirror didn't have the public keys loaded in memory,
 		// so read them from storage.
@@ -1048,6 +1056,14 @@ func (m *Mirror) handleFuturePrecommitProofs(
 	// Sometimes the kernel is able to assign the validator set,
 	// including public keys.
 	pubKeys := vlReq.VRV.ValidatorSet.PubKeys
+
+	if len(pubKeys) > 0 && p.PubKeyHash != string(vlReq.VRV.ValidatorSet.PubKeyHash) {
+		// The kernel knows the validator set for this height,
+		// and the message claims a different one.
+		// The votes would be verified against the known set
+		// but stored under the claimed hash.
+		return tmconsensus.HandleVoteProofsBadPubKeyHash
+	}
 
 	if len(pubKeys) == 0 {
 		// The mirror didn't have the public keys loaded in memory,
